@@ -78,8 +78,6 @@ def translator_stage(ctx: Ctx):
         try:
             terms.append(T.obligation(kinds, shapes, lt, ntab))
             metas.append((kinds, shapes, lt, ntab))
-            ctx.obligations += 1
-            ctx.discharged += 1
         except Exception as e:  # fail closed
             ctx.obligation(f"translate blocking SQL of cumulative/predict {kinds} {shapes} {lt}/{ntab}", False, repr(e)[:300])
             broken.append(f"untranslatable {kinds} {shapes} {lt}/{ntab}: {repr(e)[:120]}")
@@ -110,8 +108,9 @@ def run(ctx: Ctx):
                        "new contents]; cases: seeded tables (1-3, NULL keys), all link types; a single rule = 0-2 equi-join atoms (incl. substr keys, "
                        "keys and filters not symmetric in l/r such as l.a = r.b, l.c < r.c, l.a is not null - for every link type) + optional filter atom, or an OR rule without extractable keys, salted on DuckDB; "
                        "rule lists of length 1-4 with array-exploding rules (one or two exploded arrays) on DuckDB; max_rows_limit passed "
-                       "explicitly (never hit) in half of the cases; n_largest in {1,2,3,5}; 3 Coq-evaluated comparisons per case; non-trivial = the rule has a "
-                       "NULL outcome, pre-filter > post-filter > 0 and >= 2 rules own pairs.")
+                       "explicitly (never hit) in half of the cases; n_largest in {1,2,3,5}; 3 Coq-evaluated comparisons per checked call (count, cumulative, n_largest); a call is "
+                       "non-trivial when pre-filter > post-filter > 0 and (>= 2 rules own pairs or it is the call after the tables "
+                       "were replaced); distinct by full case.")
     ctx.trusted += [
         "translators/c14_sql.py + c01_skeleton.py helpers (sqlglot parse; placeholder rule shapes atom / top-level OR; "
         "rule kinds plain and exploding, n <= 3; in a two-dataset link l.sds < r.sds is assumed to imply "
